@@ -249,10 +249,18 @@ def run_unit(unit):
                 if err is not None:
                     flag("exception-escaped", repr(err), engine)
                 if L < M:
-                    if steps != spec["steps"]:
-                        flag("short-chain-did-not-reach-natural-end", f"{steps} steps, natural {spec['steps']} (chain of {L} self-fed events, maxIterations {M}); log {cut[:1]}", engine)
-                    if cut:
-                        flag("short-chain-cut", f"{cut[:1]}", engine)
+                    fixed_depth = [m for m in errors if "Nested action expansion exceeded" in m]
+                    if fixed_depth and M > 50 and steps != spec["steps"]:
+                        # cause-oriented: the nested-expansion guard is a fixed depth, independent of maxIterations
+                        res["violations"].append(dict(
+                            signature=f"C13|nested-expansion-cut-at-fixed-depth(maxIterations>50)|{engine}", clause="short-chain-cut",
+                            what=f"{engine}: a {kind} expansion chain of {L} levels (maxIterations {M}) was cut after {steps} steps: {fixed_depth[0][:120]}; case {unit}",
+                            size=1, replay=dict(unit=list(unit), engine=engine)))
+                    else:
+                        if steps != spec["steps"]:
+                            flag("short-chain-did-not-reach-natural-end", f"{steps} steps, natural {spec['steps']} (chain of {L} self-fed events, maxIterations {M}); log {cut[:1]}", engine)
+                        if cut:
+                            flag("short-chain-cut", f"{cut[:1]}", engine)
                 elif L == INF:
                     if not cut:
                         flag("runaway-chain-no-error-log", f"{steps} steps, no ERROR record", engine)
